@@ -27,6 +27,24 @@ CHECKS = {
             'f monotone between evaluated points; the interpolation parameter t is abstracted to its clamp range; convergence within 50 iterations for arbitrary f is outside the claim.'),
 }
 
+CHECKS.update({
+    'C01': ('model_checking', 'symbolic execution of fit+sample with stub marginals, corr() contract and RNG model + SMT per path',
+            'Every path of the real fit and sample on symbolic tables (d<=3 quick, 4 thorough) for class/name/instance/dict configurations: schema, the single multivariate_normal(0, fitted correlation) request, out = Q_j(Phi(Z_j)) aligned by column name, constant column exact, and the normal-score frame handed to corr() are decided; statistical clauses are not claimed.',
+            'Marginals, Phi, pandas corr and the RNG are contract stubs; distributional fidelity follows by the PIT theorem, not decided.'),
+    'C02': ('model_checking', "symbolic execution of _get_correlation with pandas corr()/np.linalg.cond as contract stubs + SMT per path",
+            'Every path (all constant-column patterns, both conditioning branches) of the real _get_correlation for d<=3 (4 thorough): finiteness, symmetry, range, exact ridge, labels, PSD (principal minors) and the argument of corr() are z3 queries.',
+            "pandas' Pearson is a contract; cond's numeric value arbitrary."),
+    'C12': ('proof', 'symbolic execution of the conditional-Gaussian code on a symbolic PD matrix + SMT identities',
+            'For every conditioning subset of d<=3 (4 thorough) columns and every positive-definite symbolic correlation: conditional mean/covariance satisfy the orthogonality-principle oracle (independent of the Schur formula), symmetry, PSD (<=2 free columns); sample(conditions) dataflow for dict and Series on a symbolic RNG.',
+            'np.linalg.inv replaced by the adjugate formula; marginals/Phi uninterpreted; distribution of draws outside the claim.'),
+    'C13': ('model_checking', 'symbolic execution of pdf/cdf for every container and column permutation + SMT',
+            'All containers (DataFrame in every column permutation, Series, 1-D, 2-D arrays), d<=3: the array handed to scipy MVN is the clipped normal-score matrix in training order with the fitted correlation; log-density, row shape, unfitted error.',
+            "scipy's MVN numerics are the trusted base."),
+    'C20': ('model_checking', 'symbolic execution with argument snapshots on every path (symx) + CrossHair on column lists',
+            'Every feasible path of the listed public entry points on symbolic 2-row inputs: each argument object is element-wise identical after the call; the frame handed to plotly holds every given row once with the right label/axes. CrossHair searches the column-list logic with symbolic lists.',
+            'plotly rendering trusted; entry points listed in the evidence samples only.'),
+})
+
 NOT_APPLICABLE = {}
 
 
